@@ -39,7 +39,7 @@ def verify(prop, m):
     if os.path.exists(f"{demodir}/run.sh"):
         # stand-alone demonstration script (builds its own copy of the crate from the worktree)
         def run_demo():
-            return sh(f"sh {demodir}/run.sh {wt}", cwd=demodir)
+            return sh(f"bash {demodir}/run.sh {wt}", cwd=demodir)
         democmd = "sh demo/run.sh <worktree>"
     elif os.path.exists(f"{demodir}/Cargo.toml"):
         # stand-alone cargo project with path dependencies on the worktree (needed for the in-tree macro crate)
